@@ -2,6 +2,7 @@ package sigsrv
 
 import (
 	"fmt"
+	"os"
 	"strings"
 	"testing"
 
@@ -35,7 +36,7 @@ func (c c24case) String() string {
 func TestC24(t *testing.T) {
 	r := vf.Start(t, "C24", vf.Exploration)
 	defer r.Finish()
-	r.SetRule("case = PRNG program over 4 peers (two of them listeners; mostly 3 peers towards listener P0) of listen start/stop/usurp, session open/close/re-open (usurp), gate hold/release on the listener's stream, executed either one op at a time or in bursts (ops issued back to back, server goroutines run concurrently) with quiescence points '|'. Oracle at every quiescent point where the listener's gate is open, for every running Listen call of L: replay(outbox: SetPeer adds, ClearPeer removes) == {P : a session call P->L is running}. Ground truth = the harness' own record of which calls are running. Non-trivial = a listener check with a non-empty expected set or a Set/Clear item was observed; distinct = program")
+	r.SetRule("case = PRNG program over 4 peers (two of them listeners; mostly 3 peers towards listener P0) of listen start/stop/usurp, session open/close/re-open (usurp), gate hold/release on the listener's stream, executed either one op at a time or in bursts (ops issued back to back, server goroutines run concurrently) with quiescence points '|'. Oracle at every quiescent point where the listener's gate is open, for every running Listen call of L: replay(outbox: SetPeer adds, ClearPeer removes) == {P : a session call P->L is running}. Ground truth = the harness' own record of which calls are running. Further families (c24burst_test.go): programs with session calls on streams that cancel themselves at a chosen point of the call's start-up; burst worlds (one listener, 3 peers, hundreds of short bursts of concurrent open / re-open / close / reconnect from separate goroutines, each burst judged before the next: verdict-free poll for view == running calls, else quiescence + the same oracle). Non-trivial = a listener check with a non-empty expected set or a Set/Clear item was observed; distinct = program / burst world")
 	r.Assume("a session call counts as holding an open session request from the moment the server consumed its Init until the call returns (cancelled by the harness or ended by the server)")
 	rng := r.Rand("c24")
 	pool := keys.Pool(rng, 4)
@@ -108,12 +109,27 @@ func TestC24(t *testing.T) {
 		}
 		cases = append(cases, c24case{ops: ops, seq: seq})
 	}
-	runParallel(len(cases), 16, func(i int) {
-		if i%16 == 0 {
-			r.Begin(fmt.Sprintf("batch around case %d: %s", i, cases[i]))
-		}
-		runC24(r, pool, i, cases[i])
-	})
+	// streams that die at a chosen point of the call's start-up (c24burst_test.go)
+	nOrd := len(cases)
+	drng := r.Rand("c24-dying")
+	for k := r.N(160, 4000); k > 0; k-- {
+		cases = append(cases, genC24Dying(drng))
+	}
+	only := os.Getenv("VERIF_C24_ONLY") // prog,dying,burst (debugging only)
+	if only == "" || strings.Contains(only, "prog") || strings.Contains(only, "dying") {
+		runParallel(len(cases), 16, func(i int) {
+			if only != "" && ((i < nOrd && !strings.Contains(only, "prog")) || (i >= nOrd && !strings.Contains(only, "dying"))) {
+				return
+			}
+			if i%16 == 0 {
+				r.Begin(fmt.Sprintf("batch around case %d: %s", i, cases[i]))
+			}
+			runC24(r, pool, i, cases[i])
+		})
+	}
+	if only == "" || strings.Contains(only, "burst") {
+		runC24BurstFamily(r, pool)
+	}
 	quiesceEvidence(r)
 }
 
@@ -123,6 +139,7 @@ func runC24(r *vf.Run, pool []*keys.Identity, idx int, c c24case) {
 	newestL := map[int]*g7sig.Call{}
 	newestS := map[[2]int]*g7sig.Call{}
 	nontrivial := false
+	var dying []*g7sig.Call
 	check := func() bool {
 		if !w.quiesce() {
 			return false
@@ -160,6 +177,15 @@ func runC24(r *vf.Run, pool []*keys.Identity, idx int, c c24case) {
 				w.kill(cl)
 				r.Count("op_session_close", 1)
 			}
+		case op[0] == 'X':
+			k := [2]int{int(op[1] - '0'), int(op[2] - '0')}
+			at := g7sig.DiePoints[int(op[3]-'0')]
+			cl := w.h.StartSessionDying(pool[k[0]].ID, pool[k[1]].String(), at)
+			w.startGen[cl] = w.gen
+			w.logf("start %s on a stream that dies at %s", w.cstr(cl), at)
+			newestS[k] = cl
+			dying = append(dying, cl)
+			r.Count("op_session_open_dying_"+at, 1)
 		case op[0] == 'H':
 			w.h.Gate(pool[int(op[1]-'0')].String()).Hold()
 			w.logf("hold gate of P%c", op[1])
@@ -188,6 +214,13 @@ func runC24(r *vf.Run, pool []*keys.Identity, idx int, c c24case) {
 		for _, it := range cl.Outbox() {
 			r.Count("seen_"+it.Kind, 1)
 			nontrivial = true
+		}
+	}
+	for _, cl := range dying {
+		if cl.Died() {
+			r.Count("dying_stream_died_at_"+cl.DieAt(), 1)
+		} else {
+			r.Count("dying_stream_never_reached_"+cl.DieAt(), 1)
 		}
 	}
 	r.Case(c.String(), nontrivial)
